@@ -165,6 +165,13 @@ def run_repr(ctx, case):
         V = K[0]
         cV = ch.hf_channel_to_choi_op(lambda x: (V @ x.T.conj().T) @ V.conj().T, din)
         ctx.close(np.asarray(cV).reshape(din * dout, din * dout), choi_ref, tol, 'hf_channel_to_choi_op (callable working on views of its argument)')
+    # Bloch map of a state preparation (dim_in = 1): no matrix part, the vector is the Bloch vector of the prepared state
+    if din == 1 and dout >= 2:
+        A1, b1 = ch.choi_op_to_bloch_map(np.asarray(choi_ref_c).reshape(din, dout, din, dout))
+        Bout1 = ref.gellmann_basis(dout)
+        ctx.require(b1.shape == (dout * dout - 1,), 'Bloch map shapes (dim_in = 1)')
+        ctx.close(b1, (np.einsum('aij,ji->a', Bout1, out) / 2).real[:-1], tol, 'Bloch map of a state preparation = Bloch vector of the prepared state')
+        ctx.label('bloch dim_in=1')
     # Bloch map
     if din >= 2 and dout >= 2:
         A, b = ch.choi_op_to_bloch_map(choi_ref.reshape(din, dout, din, dout))
@@ -204,6 +211,7 @@ def run_noise(ctx, case):
     name, p = case['name'], case['rate']
     ctx.note(klass=name, desc=[name, 'end' if p in (0.0, 1.0) else ('mid' if 0.01 < p < 0.99 else 'near-end')], nontrivial=(p not in (0.5,)),
              labels=[name, 'endpoint' if p in (0.0, 1.0) else 'interior'])
+    ctx.fresh(lambda: getattr(nq.channel, f'hf_{name}_kraus_op')(p), 'built-in channel: a second call is not affected by editing the Kraus operators returned by the first')
     K = np.asarray(getattr(nq.channel, f'hf_{name}_kraus_op')(p)).astype(np.complex128)
     ctx.finite(K, 'Kraus operators finite')
     ctx.close(sum(k.conj().T @ k for k in K), np.eye(2), 1e-12, 'built-in channel trace preserving')
